@@ -73,6 +73,9 @@ def check_C07(run: Run):
             p = rng.choice(thetas) if "f" in sig else (rng.choice([0, 1, 2, 3, -1]) if "i" in sig else None)
             args = [["q", o] for o in ops] + ([["f", p]] if "f" in sig else []) + ([["i", p]] if "i" in sig else [])
             a = O.impl_named(name, args, "positional"); b = O.impl_named(name, args, "keyword")
+            b2 = O.impl_named(name, args, "keyword-shuffled:%d" % rng.randrange(10 ** 6))
+            if W.diff(a["v"], b2["v"], 0.0) or a["err"] != b2["err"]:
+                run.violation(f"{name}: keyword call with the keywords in another order builds a different gate", {"name": name, "args": args})
             bl = CircuitBuilder(4)
             getattr(bl, name)(*[o for o in ops] + ([Float(p)] if "f" in sig else []) + ([p] if "i" in sig else []))
             c3 = W.w_stmt(bl.to_circuit().ir.statements[0])
@@ -132,13 +135,27 @@ def check_C08(run: Run):
             for i, j in enumerate(p): m[j, i] = 1
             for ops in ([0, 1], [1, 0], [2, 0]):
                 cases.append({"n": 3, "g": W.w_gate(MatrixGate(m, ops))})
+    # explicit rarely-taken shapes: multiply-controlled gates, pure-phase rotations (angle 0, phase != 0) also under a control
+    from opensquirrel.ir import BlochSphereRotation as _B, ControlledGate as _C
+    import opensquirrel.default_gates as _dg
+    for n in (3, 4):
+        for ops in itertools.permutations(range(n), 3):
+            cases.append({"n": n, "g": W.w_gate(_C(ops[0], _C(ops[1], _dg.X(ops[2]))))})
+            cases.append({"n": n, "g": W.w_gate(_C(ops[0], _C(ops[1], _B(ops[2], (0, 0, 1), 0.0, rng.uniform(-3, 3)))))})
+        for a, b in itertools.permutations(range(n), 2):
+            cases.append({"n": n, "g": W.w_gate(_C(a, _B(b, (1, 0, 0), 0.0, rng.choice([math.pi / 4, math.pi, -1.0]))))})
+            cases.append({"n": n, "g": W.w_gate(_C(a, _B(b, (0, 1, 0), 2 * math.pi, 0.7)))})
+        for q in range(n):
+            cases.append({"n": n, "g": W.w_gate(_B(q, (0, 1, 0), 0.0, rng.uniform(-3, 3)))})
+            cases.append({"n": n, "g": W.w_gate(_B(q, (1, 1, 1), 1e-9, 1.0))})
     for _ in range(run.n(30, 400)):
         n = 5; ops = rng.sample(range(5), rng.randint(1, 3))
         cases.append({"n": n, "g": (g.gate1(ops[0], False) if len(ops) == 1 else g.ctrl_anon(ops[0], ops[1], False) if len(ops) == 2 else g.ctrl2(*ops))["g"]})
     # out of range operands
     for _ in range(run.n(30, 300)):
         n = rng.randint(1, 3)
-        gt = g.gate1(rng.choice([n, n + 1, 7]), False)["g"] if rng.random() < 0.5 else g.ctrl_anon(rng.choice([n, 0]), rng.choice([n + 1, 1 if n > 1 else n]), False)["g"]
+        cq = rng.choice([n, 0]); tq = rng.choice([x for x in (n + 1, 1 if n > 1 else n, n + 2) if x != cq])
+        gt = g.gate1(rng.choice([n, n + 1, 7]), False)["g"] if rng.random() < 0.5 else g.ctrl_anon(cq, tq, False)["g"]
         cases.append({"n": n, "g": gt, "oob": True})
     def cmp_mat(c, r, m):
         if m is None: return None
@@ -533,7 +550,16 @@ def gate_pool(g: G.Gen, rng):
     add("CNOT10", dg.CNOT(1, 0), Mx(cn, [1, 0]))
     add("CZ-relphase", C(0, B(1, (0, 0, 1), pi, 0.0)), C(0, B(1, (0, 0, 1), pi, pi / 2 + 1e-3)))
     add("CZ02", dg.CZ(0, 2), Mx(cz, [2, 0]))
-    add("CNOT01-near", C(0, B(1, (1, 0, 0), pi - 1e-4, pi / 2)), C(0, B(1, (1, 0, 0), pi - 1e-9, pi / 2)))
+    add("CNOT01-near", C(0, B(1, (1, 0, 0), pi - 1e-4, pi / 2)), C(0, B(1, (1, 0, 0), pi - 1e-9, pi / 2)),
+        C(0, B(1, (1, 0, 0), pi - 3e-4, pi / 2)), C(0, B(1, (1, 0, 0), pi - 1e-3, pi / 2)), Mx(cn * np.exp(2e-4j), [0, 1]) if False else C(0, B(1, (1, 0, 0), pi, pi / 2 + 2e-4)))
+    import opensquirrel.default_gates as dgx
+    from opensquirrel.ir import Float as Fl
+    add("CR-near", dgx.CR(0, 1, Fl(0.7)), dgx.CR(0, 1, Fl(0.7 + 1e-4)), dgx.CR(0, 1, Fl(0.7 + 5e-4)), Mx(np.diag([1, 1, 1, np.exp(0.7002j)]), [0, 1]))
+    # controlled gates with multi-qubit targets: a phase on the target is a relative phase of the controlled gate
+    add("Toffoli", C(0, C(1, dg.X(2))), C(0, Mx(cn, [1, 2])), C(1, C(0, dg.X(2))))
+    add("Toffoli-relphase", C(0, Mx(1j * cn, [1, 2])), C(0, Mx(np.exp(0.3j) * cn, [1, 2])))
+    add("CI", C(0, dg.I(1)), C(0, dg.I(2)), C(0, Mx(np.eye(4), [1, 2])))
+    add("CCZ-relphase", C(0, Mx(np.exp(0.3j) * cz, [1, 2])))
     add("I01", C(1, dg.I(0)), Mx(np.eye(4), [0, 1]), C(0, dg.I(1)))
     add("globalphase", Mx(np.eye(4) * np.exp(0.7j), [0, 1]))
     sw = np.array([[1, 0, 0, 0], [0, 0, 1, 0], [0, 1, 0, 0], [0, 0, 0, 1]], complex)
@@ -547,7 +573,6 @@ def check_C16(run: Run):
     rng = random.Random(run.seed * 101 + 103); g = G.Gen(rng)
     pool = gate_pool(g, rng)
     pairs = list(itertools.product(range(len(pool)), repeat=2))
-    if run.quick(): rng.shuffle(pairs); pairs = pairs[:700]
     cases = [{"a": pool[i][1], "b": pool[j][1], "la": pool[i][0], "lb": pool[j][0]} for i, j in pairs]
     def cmp_e(c, r, m):
         if m is None: return None
@@ -565,7 +590,7 @@ def check_C16(run: Run):
         A = R.gate_matrix(R.rename_gate(c["a"], lambda q: qs.index(q)), len(qs)); B = R.gate_matrix(R.rename_gate(c["b"], lambda q: qs.index(q)), len(qs))
         both_bsr = c["a"]["k"] == "bsr" and c["b"]["k"] == "bsr"
         d = float(np.abs(A - B).max()) if both_bsr else R.phase_dist(A, B)
-        if r["v"] and d > 1e-4: run.violation(f"two gates with different operations compare equal (distance {d:.3g}; {c['la']} vs {c['lb']})", c)
+        if r["v"] and d > 3e-5: run.violation(f"two gates with different operations compare equal (distance {d:.3g}; {c['la']} vs {c['lb']})", c)
         if (not r["v"]) and d < 1e-9: run.violation(f"two representations of the same operation compare unequal ({c['la']} vs {c['lb']})", c)
     for (a, b), v in results.items():
         if (b, a) in results and results[(b, a)] != v and "near" not in a:
@@ -637,9 +662,11 @@ def pipeline_pool():
         "version 3.0\nqubit[2] q\nRx(1.2) q[0]\nRy(-0.7) q[0]\nCR(2.5) q[0], q[1]\nT q[1]\nH q[0:1]\n",
         "version 3.0\nqubit[4] q\nbit[1] b\nY90 q[3]\nCNOT q[3], q[0]\nS q[2]\nreset q[1]\nCRk(3) q[1], q[2]\nb[0] = measure q[2]\nmX90 q[0]\n",
         "version 3.0\nqubit[2] q\nH q[0]\nH q[0]\nX q[1]\nZ q[1]\nCZ q[0], q[1]\nTdag q[0]\n",
+        "version 3.0\nqubit[3] q\nT q[0]\nT q[0]\nY90 q[1]\nX q[1]\nRx(0.78539816339744830962) q[2]\nRx(0.78539816339744830962) q[2]\n",
     ]
     pipes = [[("merge",)], [("decompose", "CNOT"), ("merge",), ("decompose", "McKay")], [("decompose", "ZYZ")], [("map", "rev"), ("decompose", "XYX"), ("merge",)],
-             [("replace", "CNOT"), ("merge",), ("decompose", "YXY")], [("decompose", "McKay"), ("map", "cycle")]]
+             [("replace", "CNOT"), ("merge",), ("decompose", "YXY")], [("decompose", "McKay"), ("map", "cycle")],
+             [("merge",), ("map", "cycle")], [("merge",), ("map", "cycle"), ("decompose", "ZYZ"), ("merge",)]]
     return [(s, p) for s in src for p in pipes]
 
 def compile_one(src, pipe):
